@@ -24,7 +24,8 @@
    the name _partial; the blocking part is an invariant proof for SubgraphMerge::try_merge
    sequences (C17's SMInv) lifted through can_connect_colorize. *)
 From Coq Require Import List String NArith Bool.
-From HV Require Import Partition.Base GraphAlg.Model Partition.Model Partition.WF Partition.PWF Gen.OpsTable.
+From HV Require Import Partition.Base GraphAlg.Model Partition.Model Partition.WF Partition.PWF
+                       Partition.Full Partition.PFull Partition.PFullW Gen.OpsTable.
 Import ListNotations.
 Open Scope N_scope.
 Open Scope string_scope.
@@ -33,6 +34,78 @@ Theorem C18_WellFormed_b_sound_partial : forall (T : optable) (p : graph),
   WellFormed_b T p = true -> WellFormed T p.
 Proof. exact WellFormed_b_sound. Qed.
 Print Assumptions C18_WellFormed_b_sound_partial.
+
+(* ---- the all-graphs direction, clause by clause, for the executable model of the WHOLE
+   partition_graph (Partition/Full.v; compared with every real output by the check).
+   [flat_ok_b T g] (Partition/PFull.v) = what the front end guarantees and the proofs use: node ids and
+   edge ids duplicate-free, edge endpoints are nodes, every dependency's predecessor is a node
+   (deps_closed_b), no module boundary left; decidable, evaluated on every real flat graph.
+
+   PROVED for all tables T and all graphs g (on top of C17's SMInv / try_merge theorems):
+     - the colour/merge progress loop never panics and never runs out of fuel, and keeps the
+       invariant PInv: SMInv; an edge that left handoff_edges joins two members of one subgraph;
+       one loop context per group; a handoff is alone in its group; delayed edges stay in
+       handoff_edges                                    (PFull.pass_inv, ploop_inv, model_core)
+     - subgraphs() returns the classes of the final partition, tiling the global order
+                                                        (PFull.sm_subgraphs_spec)
+     - clause W1 (membership) and clause W2 (one loop context)      (theorems below)
+   NOT PROVED (the level therefore stays translation_validation; each item names the missing lemma):
+     - W3 pipeline shape and the "none inside a subgraph" half of W4: need the colour invariant
+       "the merged edges of a group form a tree whose edges respect Pull<=Comp<=Push with Pull
+       out-degree <= 1 and Push in-degree <= 1, hence no second internal edge" (can_connect_colorize
+       is modelled, Full.can_connect, but no invariant about ps_colors is carried by PInv yet)
+     - W4 first half / W5: need the edge-level specification of insert_all (every id left in
+       handoff_edges is replaced by src -> fresh Vec handoff -> dst with the tick entry moved to the
+       out edge); with PInv.pi_merged / pi_tick and SMInv.inv_no_enemy_inside the clauses follow
+     - W6 / W7: need (a) that sm_subgraphs lists the classes in an order compatible with
+       C17_sm_group_order (quotient edges go forward), and (b) a specification of contig /
+       make_loops_contiguous (output is a permutation of the flat order, every loop's descendants
+       contiguous, relative order inside one loop context kept) combined with the generalised
+       ingress constraints of pred_pairs to show producers stay first. *)
+Theorem C18_W1_all_graphs_partial : forall (T : optable) (g p : graph),
+  flat_ok_b T g = true -> partition_model T g = POk p -> W1 p.
+Proof. exact W1_all. Qed.
+Print Assumptions C18_W1_all_graphs_partial.
+
+Theorem C18_W2_all_graphs_partial : forall (T : optable) (g p : graph),
+  flat_ok_b T g = true -> partition_model T g = POk p -> W2 p.
+Proof. exact W2_all. Qed.
+Print Assumptions C18_W2_all_graphs_partial.
+
+(* the progress loop of the model is total and keeps its invariant *)
+Theorem C18_progress_loop_total_partial : forall (T : optable) (g p : graph),
+  flat_ok_b T g = true -> partition_model T g = POk p ->
+  exists st f ist groups topo,
+    PInv T g st f /\
+    insert_all (mkIs g (tick_edges T g) (max_list (node_ids g) + 1) (max_list (map e_id (g_edges g)) + 1))
+               (ps_hedges st) = ROk ist /\
+    sm_subgraphs (ps_sm st) = ROk groups /\
+    List.concat groups = sm_order (ps_sm st) /\ Forall (is_class (sort_dedup (node_ids g)) f) groups /\
+    make_loops_contiguous (is_g ist) (register_sgs (is_g ist) groups)
+                          (map s_id (register_sgs (is_g ist) groups)) = ROk topo /\
+    p = mkGraph (map (fun n => mkNode (n_id n) (n_kind n) (n_loop n) (n_refs n)
+                                      (node_sg (register_sgs (is_g ist) groups) (n_id n))
+                                      (mark_node (is_g ist) (Full.is_tick ist) n)) (g_nodes (is_g ist)))
+                (g_edges (is_g ist)) (g_loops (is_g ist)) (register_sgs (is_g ist) groups) topo.
+Proof. exact model_core. Qed.
+Print Assumptions C18_progress_loop_total_partial.
+
+(* non-vacuity: a real flat graph satisfies flat_ok_b and the model accepts it *)
+Definition g_flat_example : graph :=
+  mkGraph [mkNode 1 (KOp "source_iter") None [] None None; mkNode 2 (KOp "tee") None [] None None;
+           mkNode 3 (KOp "union") None [] None None; mkNode 4 (KOp "tee") None [] None None;
+           mkNode 5 (KOp "for_each") None [] None None; mkNode 6 (KOp "defer_tick") None [] None None;
+           mkNode 7 (KOp "null") None [] None None]
+          [mkEdge 1 1 2 PElided PElided; mkEdge 2 2 3 PElided PElided; mkEdge 3 3 4 PElided PElided;
+           mkEdge 4 4 5 PElided PElided; mkEdge 5 6 3 PElided PElided; mkEdge 6 4 6 PElided PElided;
+           mkEdge 7 2 7 PElided PElided] [] [] [].
+Example C18_all_graphs_hyps_satisfiable :
+  flat_ok_b ops_table g_flat_example = true /\
+  match partition_model ops_table g_flat_example with
+  | POk p => g_topo p = [1; 2; 3] /\ WellFormed_b ops_table p = true
+  | _ => False
+  end.
+Proof. vm_compute. repeat split; reflexivity. Qed.
 
 (* non-vacuity: the real partitioner's output for
    `s = source_iter(0..5) -> tee(); s -> u; u = union() -> t; t = tee(); t -> for_each(drop);
